@@ -491,7 +491,7 @@ func (m *Machine) intrinsic(fn *ssa.Function, args []Value) (Value, bool) {
 		lo, _ := concreteInt(args[0])
 		hi, _ := concreteInt(args[1])
 		return m.nondet("i32", 32, true, big.NewInt(int64(lo)), big.NewInt(int64(hi))), true
-	case name == "assume":
+	case name == "vassume":
 		c := args[0].(VBool).c
 		if v, ok := c.isConst(); ok {
 			if !v {
@@ -501,7 +501,7 @@ func (m *Machine) intrinsic(fn *ssa.Function, args []Value) (Value, bool) {
 		}
 		m.cur.pc = append(m.cur.pc, c)
 		return nil, true
-	case name == "assert":
+	case name == "vassert":
 		if m.concrete != nil {
 			if m.concAsserts == nil {
 				m.concAsserts = map[string]string{}
@@ -520,7 +520,7 @@ func (m *Machine) intrinsic(fn *ssa.Function, args []Value) (Value, bool) {
 		}
 		m.oblige(args[0].(VBool).c, "assert: "+args[1].(StrV).s, "")
 		return nil, true
-	case name == "reach":
+	case name == "vreach":
 		id := args[0].(StrV).s
 		if m.stats["reach:"+id] == 0 && m.concrete == nil {
 			m.reachObls = append(m.reachObls, Obligation{pc: append([]*Cond{}, m.cur.pc...), defs: append([]*Cond{}, m.defs...), what: "reach: " + id, vacuity: true})
